@@ -50,6 +50,12 @@ FAULTS = [
     lambda o: ['op', '+', ['miss', 'ref', 'ZZGONE!A1'], ['c', V.N(1)]],
     lambda o: ['fn', 'IFERROR', [['miss', 'ref', 'ZZGONE!B2:C3'], ['c', V.N(4)]]],
     lambda o: ['miss', 'ref', "'[ZZZ.XLSX]S1'!A1"],
+    # unknown functions whose dotted names END in the name of an implemented function
+    lambda o: ['miss', 'fn', '_xlfn.ECMA.CEILING(4.3,1)'],
+    lambda o: ['fn', 'IFERROR', [['miss', 'fn', '_xlfn.STATS.MAX(1,7)'], ['c', V.N(3)]]],
+    lambda o: ['fn', 'ISERROR', [['miss', 'fn', '_xlfn.CONFIDENCE.T(0.05,1,10)']]],
+    lambda o: ['op', '+', ['miss', 'fn', 'MYLIB.SUM(1,2)'], ['c', V.N(1)]],
+    lambda o: ['fn', 'IFERROR', [['miss', 'fn', '_xlfn._xlws.SORT(1)'], o]],
 ]
 # workbooks whose files use numeric link ids (one seed in three): link 1 of every book is
 # a file that cannot be read, the other books follow - a reference through link 1 is
